@@ -118,11 +118,16 @@ def run(eng: Engine, ck: Check):
             gs = [(e, pol) for e, pol, _ in eng.guards_at(f, x) if not (mentions_name(e, 'callback'))]
             loop_guards = [g for g in gs if not (isinstance(g[0], ast.Constant))]
             chunk = unparse(x.args[0]) if x.args else 'data'
-            data_guard_ok = all(mentions_name(e, chunk) for e, pol in loop_guards)
+            feeds = {n_.id for n_ in ast.walk(expand_aliases(f, x.args[0])) if isinstance(n_, ast.Name)} | {chunk} if x.args else {chunk}
+            feeds |= {n_.id for nm_ in list(feeds) for n_ in ast.walk(single_assignments(f).get(nm_, ast.Constant(None))) if isinstance(n_, ast.Name)}
+            data_guard_ok = all(mentions_name(e, *feeds) for e, pol in loop_guards)     # the EOF test: on the chunk, or on the count it is cut to
             # p2 is allowed only through the `callback is None` branch: recheck ignoring that branch
             ck.ob('R-C04-COUNT', f, x, f'{q}: the progress callback gets the same chunk object that was {desc}, after the I/O',
                   same and p is None and data_guard_ok, f'same object: {same}; callback reachable before the I/O: {p is not None}; '
                   f'extra guards: {[unparse(e) for e, _ in loop_guards]}', construct=f'{q} callback(data) after {io_call}(data)')
+
+    fresh_chunk_rule(eng, ck)
+    file_connection_key_rule(eng, ck)
 
     # ---- R-C04-RESUME: offset provenance
     idl = eng.func(TM, 'TransferManager._initialize_download')
@@ -543,3 +548,50 @@ def task_fault_rule(eng: Engine, ck: Check):
     free_name_rules(eng, ck, 'R-C04-RESUME')
     from . import defs as _d_rq
     _d_rq.requeue_forgets_local_file(eng, ck, 'R-C04-RESUME')
+
+
+def fresh_chunk_rule(eng: Engine, ck: Check):
+    # each chunk handed to the stream is an object of its own: StreamWriter.write() hands the object to the transport, which (CPython >= 3.12) QUEUES
+    # it without copying when the socket is full and sends it later; `drain()` only waits above the high-water mark.  A buffer that the next
+    # read refills changes bytes that are still waiting to be sent: the receiver gets the right number of bytes with the wrong content.
+    sf = eng.func(CONN, 'PeerConnection.send_file')
+    for x in calls_on(sf.node, 'send_data'):
+        lp = next((a_ for a_ in ancestors(x) if isinstance(a_, (ast.While, ast.For, ast.AsyncFor))), None)
+        arg0_ = x.args[0] if x.args else None
+        ex = expand_aliases(sf, arg0_) if arg0_ is not None else None
+        copied = isinstance(ex, ast.Call) and isinstance(ex.func, ast.Name) and ex.func.id == 'bytes' and len(ex.args) == 1     # bytes(view): an immutable copy
+        fresh = ex is not None and (copied or (any(isinstance(y, ast.Call) and call_name(y) == 'read' for y in ast.walk(ex)) and not any(
+            isinstance(y, ast.Call) and call_name(y) in ('readinto', 'readinto1', 'recv_into') for y in calls_in(sf.node))))
+        outer = sorted({y.id for y in ast.walk(ex) if isinstance(y, ast.Name)} & {t_.id for n_ in walk_local(sf.node) if isinstance(n_, ast.Assign) and lp is not None and
+                                                                                 lp not in list(ancestors(n_)) for t_ in n_.targets if isinstance(t_, ast.Name) and
+                                                                                 isinstance(n_.value, ast.Call) and call_name(n_.value) in ('bytearray', 'memoryview')}) if ex is not None else []
+        ck.ob('R-C04-COUNT', sf, x, 'send_file: every chunk handed to the stream is a fresh object read in that iteration (the transport may keep it queued after write() returns)',
+              fresh and (copied or not outer), f'`{unparse(arg0_) if arg0_ is not None else "?"}` = `{unparse(ex)[:70] if ex is not None else "?"}`' +
+              (f' is a view of the buffer {outer} created outside the loop' if outer else ' does not come from a read() of this iteration') +
+              ': the next readinto() overwrites chunks that are queued but not yet on the wire; both ends report COMPLETE with the announced size and the content differs',
+              construct='send_file chunk is a fresh object')
+
+
+
+def file_connection_key_rule(eng: Engine, ck: Check):
+    """R-C04-GUARD (whose bytes): the ticket in a PeerTransferRequest is chosen by the UPLOADER; nothing makes the tickets of two peers
+    distinct (every aioslsk client counts from 2 after a start).  The future that `_initialize_download` parks for the uploader's file
+    connection, and the look-up when an 'F' connection presents its ticket, are keyed by the peer AND the ticket: otherwise the file
+    connection of one uploader completes the download of another, which stores foreign bytes under its own name and may end COMPLETE."""
+    tm = eng.cls('TransferManager', TM)
+    stores, reads = [], []
+    for m in tm.methods.values():
+        for n in walk_local(m.node):
+            if isinstance(n, ast.Subscript) and isinstance(n.value, ast.Attribute) and n.value.attr == '_file_connection_futures':
+                (stores if isinstance(n.ctx, ast.Store) else reads).append((m, n))
+    ck.floor('R-C04-GUARD.file_connection_futures', min(len(stores), len(reads)), 1)
+    for m, n in stores + reads:
+        ck.visited(m)
+        k = expand_aliases(m, n.slice)
+        peer = any(isinstance(x, ast.Attribute) and x.attr == 'username' for x in ast.walk(k))
+        tick = any((isinstance(x, ast.Attribute) and x.attr == 'ticket') or (isinstance(x, ast.Name) and 'ticket' in x.id) or
+                   (isinstance(x, ast.Call) and 'ticket' in unparse(x.func)) for x in ast.walk(k))
+        what = 'registered' if isinstance(n.ctx, ast.Store) else 'looked up'
+        ck.ob('R-C04-GUARD', m, n, f'{m.name}: the future for the uploader\'s file connection is {what} under the peer\'s name and the ticket', peer and tick,
+              f'key `{unparse(n.slice)}`: two uploaders that announce the same ticket in the same window share one entry; the first file connection to arrive completes '
+              'the LAST registered download, whoever opened it', construct=f'{m.name} file connection key')
